@@ -32,11 +32,11 @@ REAL = ["BPTK_Py.server.bptkServer (start-up load, _ensure_instance_exists, reco
 STUB = ["file system under FileAdapter (simfs with crash semantics)", "process crash/restart (server objects dropped; only simfs durable content survives; module-level state survives, see DESIGN.md section 7)",
         "wall clock", "uuid source", "SdSimulation worker threads run serially"]
 ASSUMPTIONS = ["a stepping request is acknowledged only after its save; a write fault models a crash during request k, whose response the client never saw",
-               "session control requests (begin-session) come first in each instance's stream, so that the durable point of an instance is its last stepping request",
+               "a begin-session is followed immediately (in its instance's stream) by a stepping request; while a begun session has not been stepped yet it is not externalised and the instance is exempt at that crash point",
                "crash modelled in-process; the thorough tier replays a sample with each incarnation in a child process on a real directory"]
 FAULT_KINDS = ["crash_between_requests", "second_crash", "crash_before_open", "torn:zero", "torn:one", "torn:header", "torn:inner", "torn:last",
                "lost_write", "stray_file"]
-PROBES = ["restored_with_settings_history", "restored_instance_stepped", "torn_inside_inner_string", "damaged_file_contained",
+PROBES = ["second_session_in_instance", "restored_with_settings_history", "restored_instance_stepped", "torn_inside_inner_string", "damaged_file_contained",
           "startup_with_stray_file", "several_instances_restored", "never_externalised_instance_exempt", "long_history_restored"]
 THOROUGH_PROBES = ["child_process_cross_check"]
 EXHAUSTIVE = {"quick": False, "thorough": False}
@@ -78,6 +78,19 @@ def gen_history(seed, long=False):
                 s.append({"inst": j, "op": rng.choice(["results", "flat"])})
             else:
                 s.append({"inst": j, "op": "keep_alive"})
+        if rng.random() < 0.3 and not long:
+            # a second session in the same instance; its first stepping request follows immediately, so that the
+            # only crash points at which the new session is not durable yet are the ones right after the begin
+            taken = sum((o.get("n", 1) if o["op"] == "steps" else 1) for o in s if o["op"] in ("step", "steps"))
+            scen2 = "alt" if scen == "base" else "base"
+            s.append({"inst": j, "op": "begin", "scenarios": [scen2], "equations": rng.sample(eqs, rng.randint(2, len(eqs))),
+                      "settings": {"smA": {scen2: {"constants": {"constant": 7.0}}}} if (template == "T1" and with_settings and rng.random() < 0.5) else {}})
+            if taken and rng.random() < 0.6:
+                s.append({"inst": j, "op": "steps", "n": taken, "settings": {}})
+            else:
+                s.append({"inst": j, "op": "step", "settings": {}})
+            if rng.random() < 0.5:
+                s.append({"inst": j, "op": "step", "settings": {}})
         if rng.random() < 0.15 and not long:
             s.append({"inst": j, "op": "stream", "settings": {}})
         streams.append(s)
@@ -88,7 +101,7 @@ def gen_history(seed, long=False):
         j = rng.choice([j for j in range(k) if idx[j] < len(streams[j])])
         ops.append(streams[j][idx[j]])
         idx[j] += 1
-    ops = ops[:14]
+    ops = ops[:16]
     return {"property": PROPERTY,
             "config": {"adapter": adapter, "list_order": rng.choice(["insertion", "sorted", "reversed"]),
                        "model": {"template": template, "start": 1.0, "stop": 30.0 if not long else 2000.0, "dt": 1.0,
@@ -429,6 +442,12 @@ def execute(case):
         dam = info["damaged"] if phase == 1 else info.get("damaged2", set())
         if created_at is not None and created_at > kk:
             return "fresh"
+        # a session that was begun but has not been stepped yet at the crash is not externalised: the durable
+        # state still holds the previous session, which the property does not ask to be continued
+        last_begin = max([n for n, o in enumerate(ops, start=1) if o["inst"] == j and o["op"] == "begin" and n <= kk] or [0])
+        last_save = max([n for n, o in enumerate(ops, start=1) if o["inst"] == j and o["op"] in SAVING and n <= kk and n != dropped] or [0])
+        if last_begin > last_save and last_save > 0:
+            return "never_externalised"
         if j in dam:
             return "damaged"
         if j in ext:
@@ -440,6 +459,8 @@ def execute(case):
         after = [(n, o) for n, o in enumerate(ops, start=1) if o["inst"] == j and n > k]
         st1 = status_of(j, created_at, 1)
         st2 = status_of(j, created_at, 2) if k2 is not None else st1
+        if st1 in ("never_externalised", "damaged"):
+            st2 = st1       # what was lost at the first crash stays lost: the twin is no reference for it any more
         if "never_externalised" in (st1, st2):
             res.probe("never_externalised_instance_exempt")
         if "damaged" in (st1, st2):
@@ -449,8 +470,8 @@ def execute(case):
             if any(o.get("settings") for n, o in enumerate(ops, start=1) if o["inst"] == j and n <= k and n != dropped):
                 res.probe("restored_with_settings_history")
         first = {1: True, 2: True}
-        eqs = begin[j]["equations"] if j in begin else []
         for n, o in after:
+            eqs = next((x["equations"] for m_, x in reversed(list(enumerate(ops, start=1))) if x["inst"] == j and x["op"] == "begin" and m_ < n), [])
             phase = 2 if (k2 is not None and n > k2) else 1
             status = st2 if phase == 2 else st1
             if status in ("never_externalised", "damaged"):
@@ -496,6 +517,8 @@ def execute(case):
                 break
     if restored >= 2:
         res.probe("several_instances_restored")
+    if any(sum(1 for o in ops if o["inst"] == j and o["op"] == "begin") > 1 for j in insts):
+        res.probe("second_session_in_instance")
     if any(o["op"] == "steps" and o.get("n", 0) >= 100 for o in ops[:k]):
         res.probe("long_history_restored")
     res.sim_units = sum((o.get("n", 1) if o["op"] == "steps" else 1) for o in ops if o["op"] in SAVING)
